@@ -33,6 +33,7 @@ META = {
     "not_decided": "all estimator classes / dtypes of third-party libraries; that a batch call equals row-wise calls "
                    "(a property of the wrapped model)",
 }
+META["explanation"] += ' Also COPY for the wrappers.'
 MIN_INSTANCES = {"SHAPE": 3, "INPUT": 2, "WIRING": 4, "RIVER": 3, "DISPATCH": 3, "NPAPI": 1, "COPY": 3}
 FLAT = (".flatten", ".ravel")
 
